@@ -6,6 +6,7 @@ use std::collections::{BTreeMap, BTreeSet};
 use serde::{Deserialize, Serialize};
 
 use crate::{
+  spec::ReplCall,
   exec::Answer,
   gen::{self, fresh_cache_ids, gen_calls, gen_text, gen_tree, is_ascii_tree, GenCfg, Ids, FILE_NAMES},
   model::content,
@@ -67,7 +68,10 @@ fn gen_op_kind(rng: &mut Rng, n_objs: usize, allow_abort: bool) -> OpKind {
         None
       },
     },
-    73..=82 => OpKind::Hash,
+    73..=80 => OpKind::Hash,
+    81..=82 => OpKind::DebugFmt {
+      limit: if rng.chance(700) { Some(rng.below(500) as u32) } else { None },
+    },
     83..=88 if n_objs > 1 => OpKind::Eq {
       other: rng.usize_below(n_objs),
     },
@@ -138,6 +142,25 @@ fn gen_shared_root(rng: &mut Rng, cfg: &GenCfg, ids: &mut Ids) -> TreeSpec {
       if calls.len() < 2 {
         calls.push(gen::gen_call(rng, &text, cfg.ascii, &calls));
         calls.push(gen::gen_call(rng, &text, cfg.ascii, &calls));
+      }
+      // swarm mode "many replacements" (1% of the shared ReplaceSources): a
+      // replacement count next to a power of two (31 .. 1028), so that
+      // size-gated code paths of the lazy sort are entered with racing readers
+      if !cfg!(miri) && rng.chance(10) {
+        let pos = gen::legal_positions(&text);
+        let n = gen::magic_count(rng, 10);
+        for i in 0..n {
+          let a = *rng.pick(&pos);
+          let z = if rng.chance(800) { a } else { *rng.pick(&pos) };
+          calls.push(ReplCall {
+            start: a.min(z),
+            end: a.max(z),
+            content: std::char::from_digit((i % 36) as u32, 36).unwrap().to_string(),
+            name: None,
+            enforce: None,
+            via_insert: rng.chance(300),
+          });
+        }
       }
       TreeSpec::Replace {
         inner: Box::new(inner),
